@@ -245,7 +245,13 @@ func (state *RuntimeState) VIPPollCheckHandler(w http.ResponseWriter, r *http.Re
 		state.writeFailureResponse(w, r, http.StatusPreconditionFailed, "Error parsing form")
 		return
 	}
-	//TODO: check username
+	// The approval only counts for the user the push was sent to
+	if pushTransaction.Username != authData.Username {
+		logger.Printf("VIPPollCheckHandler: push transaction of user %s polled by %s",
+			pushTransaction.Username, authData.Username)
+		state.writeFailureResponse(w, r, http.StatusPreconditionFailed, "Push transaction not found")
+		return
+	}
 	valid, err := state.Config.SymantecVIP.Client.VipPushHasBeenApproved(pushTransaction.TransactionID)
 	if err != nil {
 		logger.Println(err)
